@@ -214,6 +214,31 @@ def analyse(src: Source) -> List[Report]:
                "leftover items must each get a one-entry row with the mean rate")
         if ok:
             flushed.update(d for d, _ in drained)
+    # leftovers drained by one loop over both lists: for item in chain(reversed(small), reversed(large)): table.append((WalkerItem(item.item, mean),))
+    for lp_ in [n for n in ast.walk(build) if isinstance(n, ast.For) and isinstance(n.target, ast.Name)]:
+        it_ = lp_.iter
+        parts = list(it_.args) if isinstance(it_, ast.Call) and norm(it_.func) in ("chain", "itertools.chain") else \
+            ([it_.left, it_.right] if isinstance(it_, ast.BinOp) and isinstance(it_.op, ast.Add) else None)
+        if parts is None:
+            continue
+        srcs = []
+        for p_ in parts:
+            while isinstance(p_, ast.Call) and isinstance(p_.func, ast.Name) and p_.func.id in ("reversed", "list", "tuple", "iter") and len(p_.args) == 1:
+                p_ = p_.args[0]
+            srcs.append(norm(p_))
+        if not set(srcs) <= {small, large} or lp_.orelse:
+            continue
+        apps = [c for st in lp_.body for c in ast.walk(st) if isinstance(c, ast.Call) and norm(c.func) == f"self.{table_attr}.append"]
+        ok = False
+        if len(apps) == 1 and apps[0].args:
+            row = RB.res(apps[0].args[0], (lp_.target.id,))
+            ok = isinstance(row, ast.Tuple) and len(row.elts) == 1 and isinstance(row.elts[0], ast.Call) and len(row.elts[0].args) == 2 \
+                and norm(row.elts[0].args[0]) == f"{lp_.target.id}.item" and norm(row.elts[0].args[1]) == mean \
+                and not any(isinstance(x, (ast.If, ast.Break, ast.Continue)) for st in lp_.body for x in ast.walk(st))
+        rep.ob("R18.2-flush-rows", ok, Loc(W, lp_.lineno, locb.qual), apps[0] if apps else lp_.iter,
+               "leftover items must each get a one-entry row with the mean rate")
+        if ok:
+            flushed.update(srcs)
     rep.ob("R18.2-both-flushed", flushed == {small, large}, locb, f"flushed lists {sorted(flushed)}",
            "both the small and the large list must be emptied into one-entry rows (otherwise cells are lost from the table)")
     # ---- R18.3 -------------------------------------------------------------------------------------------------------
@@ -329,6 +354,19 @@ def analyse(src: Source) -> List[Report]:
                             and isinstance(e.value.value, ast.Subscript) and self_attr(e.value.value.value) == bounds_attr:
                         comp = comp_
                         ok = norm(e.value.slice) == d and comp in (0, 1)
+        if not ok and len(wa) == 2 and len(tup) == 1 and len(tup[0].args[0].elts) == 2:
+            # the item rate is the very expression stored as a component of the bound tuple in the same loop body (bounds and
+            # walker items built in one pass)
+            rate = wa[1]
+            same_loop = any(isinstance(lp_, ast.For) and any(x is c for x in ast.walk(lp_)) and any(x is tup[0] for x in ast.walk(lp_))
+                            and norm(lp_.target) == d for lp_ in ast.walk(ini))
+            if same_loop and isinstance(rate, ast.Call) and norm(rate.func) == "max" and len(rate.args) == 2:
+                zero = [x for x in rate.args if isinstance(x, ast.Constant) and x.value == 0]
+                src_ = [x for x in rate.args if not isinstance(x, ast.Constant)]
+                if len(zero) == 1 and len(src_) == 1:
+                    for k_, comp_e in enumerate(tup[0].args[0].elts):
+                        if norm(comp_e) == norm(src_[0]):
+                            comp, ok = k_, True
         if ok:
             comp_of_list[lst] = comp
         rep.ob("R18.4-walker-items", ok, Loc(CV, c.lineno, "CellVetoEventHandler.initialize"), c,
@@ -342,8 +380,19 @@ def analyse(src: Source) -> List[Report]:
     rep.ob("R18.4-walker-per-direction", sorted(comp_of_attr.values()) == [0, 1], Loc(CV, ini.lineno, "CellVetoEventHandler.initialize"),
            f"walker tables per direction built from bound components {comp_of_attr}", "one walker per direction for the upper (component 0) and lower (component 1) bounds")
     # send_event_time: sign branch
+    # walker = (self.<table A>, self.<table B>)[index][direction]  (after the sign branch that sets index)
+    table_choice = None
+    for a in ast.walk(st):
+        if isinstance(a, ast.Assign) and isinstance(a.targets[0], ast.Name) and isinstance(a.value, ast.Subscript) \
+                and isinstance(a.value.value, ast.Subscript) and isinstance(a.value.value.value, (ast.Tuple, ast.List)) \
+                and len(a.value.value.value.elts) == 2 and all(self_attr(e) in comp_of_attr for e in a.value.value.value.elts) \
+                and isinstance(a.value.value.slice, ast.Name):
+            table_choice = (a.targets[0].id, a.value.value.slice.id, [self_attr(e) for e in a.value.value.value.elts], RT.text(a.value.slice))
     branch = [n for n in ast.walk(st) if isinstance(n, ast.If) and any(isinstance(a, ast.Assign) and isinstance(a.value, ast.Subscript)
                                                                        and self_attr(a.value.value) in comp_of_attr for a in n.body + n.orelse)]
+    if not branch and table_choice is not None:
+        branch = [n for n in ast.walk(st) if isinstance(n, ast.If) and any(isinstance(a, ast.Assign) and isinstance(a.targets[0], ast.Name)
+                                                                           and a.targets[0].id == table_choice[1] for a in n.body + n.orelse)]
     okb = False
     walker_var = index_var = charge_var = dir_txt = None
     if len(branch) == 1:
@@ -352,6 +401,12 @@ def analyse(src: Source) -> List[Report]:
         def facts(stmts):
             w = [(norm(a.targets[0]), self_attr(a.value.value), RT.text(a.value.slice)) for a in stmts if isinstance(a, ast.Assign)
                  and isinstance(a.value, ast.Subscript) and self_attr(a.value.value) in comp_of_attr]
+            if not w and table_choice is not None:
+                # the walker is looked up afterwards in (table of component 0, table of component 1)[index][direction]
+                i_ = [const_value(prog, cv, a.value) for a in stmts if isinstance(a, ast.Assign) and isinstance(a.targets[0], ast.Name)
+                      and a.targets[0].id == table_choice[1] and isinstance(const_value(prog, cv, a.value), int)]
+                if len(i_) == 1 and i_[0] in (0, 1):
+                    w = [(table_choice[0], table_choice[2][i_[0]], table_choice[3])]
             i = [(norm(a.targets[0]), const_value(prog, cv, a.value)) for a in stmts if isinstance(a, ast.Assign) and isinstance(a.targets[0], ast.Name)
                  and isinstance(const_value(prog, cv, a.value), int) and not isinstance(const_value(prog, cv, a.value), bool)]
             return (w[0] if len(w) == 1 else None, i[0] if len(i) == 1 else None)
